@@ -1,13 +1,329 @@
-/- Line-protocol driver for M-Proto (stub until the model lands). Core-only. -/
+/-
+Line-protocol driver for M-Proto. One operation per input line, one answer per output
+line. Core-only (built as `lean_exe protodrv`).
+
+Byte strings and paths are lower-case hex ("-" = empty); chunk lists are comma-separated
+hex strings; files are `<pathhex>=<contenthex>` and are printed sorted.
+
+  F  <chunks>                         read frames until the stream ends
+  FW <hex>                            the Write calls of frame.Writer.Write
+  HR handshake|goodbye                the request frame the host sends
+  PC p | PD p | PB p | PA p           Clean / Dir / Base / IsAbs
+  PJ a b | PR base targ | PM root f   Join / Rel / generated-file path of a Thrift file
+  VA root f…  | CA f…                 verifyAncestry / findCommonAncestor
+  G  root out nm {path content|!}* np {!|nf {path content}*}* ord      generate plan
+  W  nf {fullpath content}*           the write loop (in this order) on an empty file system
+  H  coreOk nc {path content}* ord np {name exitAtStart exitCode hsOut hsExit genOut genExit byeOut byeExit}*
+  S  name hasSG libver ng {E|N|nf {path content}*}* chunks             plugin.Main
+  XM np {nf {path content}*}* ord     MultiServiceGenerator merge
+  XP K wfbits inputs schedule         pool interleaving: results per thread
+  XL K held payloads schedule         lock interleaving: response per sender
+-/
+import ThriftVerif.Wire.Text
+import ThriftVerif.Proto.Server
+import ThriftVerif.Proto.Conc
+
+open ThriftVerif.Wire ThriftVerif.Proto
+
+abbrev Toks := List String
+
+def pHex : Toks → Option (Bytes × Toks)
+  | t :: r => (bytesOfHex t).map fun b => (b, r)
+  | [] => none
+
+def pStr (ts : Toks) : Option (Str × Toks) := (pHex ts).map fun (b, r) => (strOfBytes b, r)
+
+def pNat : Toks → Option (Nat × Toks)
+  | t :: r => t.toNat?.map fun n => (n, r)
+  | [] => none
+
+def pBool (ts : Toks) : Option (Bool × Toks) := (pNat ts).map fun (n, r) => (n != 0, r)
+
+def pChunks : Toks → Option (Chunks × Toks)
+  | t :: r => ((t.splitOn ",").mapM bytesOfHex).map fun cs => (cs, r)
+  | [] => none
+
+def pNatList : Toks → Option (List Nat × Toks)
+  | t :: r =>
+    if t = "-" then some ([], r)
+    else ((t.splitOn ",").mapM String.toNat?).map fun ns => (ns, r)
+  | [] => none
+
+/-- `n` repetitions of a parser. -/
+def pMany {α} (p : Toks → Option (α × Toks)) : Nat → Toks → Option (List α × Toks)
+  | 0, ts => some ([], ts)
+  | n + 1, ts =>
+    match p ts with
+    | some (a, r) =>
+      match pMany p n r with
+      | some (as, r') => some (a :: as, r')
+      | none => none
+    | none => none
+
+def pCounted {α} (p : Toks → Option (α × Toks)) (ts : Toks) : Option (List α × Toks) :=
+  match pNat ts with
+  | some (n, r) => pMany p n r
+  | none => none
+
+def pFile (ts : Toks) : Option ((Str × Content) × Toks) :=
+  match pStr ts with
+  | some (p, r) =>
+    match pHex r with
+    | some (c, r') => some ((p, c), r')
+    | none => none
+  | none => none
+
+def pFiles : Toks → Option (Files × Toks) := pCounted pFile
+
+/-- `!` = failure, otherwise a counted file list. -/
+def pOptFiles : Toks → Option (Option Files × Toks)
+  | "!" :: r => some (none, r)
+  | ts => (pFiles ts).map fun (f, r) => (some f, r)
+
+def pMod (ts : Toks) : Option (ModIn × Toks) :=
+  match pStr ts with
+  | some (p, "!" :: r) => some (⟨p, none⟩, r)
+  | some (p, r) => (pHex r).map fun (c, r') => (⟨p, some c⟩, r')
+  | none => none
+
+/-! printing -/
+
+def hexStr (s : Str) : String := hexOrDash (bytesOfStr s)
+
+def strLt (a b : String) : Bool := a < b
+
+def insertSorted (x : String) : List String → List String
+  | [] => [x]
+  | y :: r => if strLt y x then y :: insertSorted x r else x :: y :: r
+
+def sortStrings (xs : List String) : List String := xs.foldr insertSorted []
+
+def showFiles (fs : Files) : String :=
+  let items := sortStrings (fs.map fun x => hexStr x.1 ++ "=" ++ hexOrDash x.2)
+  " ".intercalate (toString fs.length :: items)
+
+def showChunks (cs : Chunks) : String :=
+  if cs.isEmpty then "-" else ",".intercalate (cs.map hexOrDash)
+
+def reqText : Req → String
+  | .handshake => "handshake" | .generate => "generate" | .goodbye => "goodbye"
+
+def pevText : PEvent → String
+  | .start => "start" | .req r => reqText r | .eof => "eof" | .exit => "exit"
+
+def hevText : HEvent → String
+  | .start => "start" | .send r => "s:" ++ reqText r | .recvOk r => "ok:" ++ reqText r
+  | .recvErr r => "err:" ++ reqText r | .closePipes => "close" | .wait => "wait"
+
+def verdictText : Verdict → String
+  | .ok => "ok" | .fail => "fail" | .hang => "hang"
+
+def showRec (r : Rec) : String :=
+  let n := if namedIn r then "1" else "0"
+  s!"; {n} {".".intercalate (r.st.view.map pevText)} {".".intercalate (r.h.map hevText)}"
+
+def showResult (r : Result) : String :=
+  let w := match r.wrote with
+    | some fs => showFiles fs
+    | none => "-"
+  s!"ok {verdictText r.exit} {w} " ++ " ".intercalate (r.recs.map showRec)
+
+def pStep (ts : Toks) : Option (PStep × Toks) :=
+  match pChunks ts with
+  | some (cs, r) => (pBool r).map fun (e, r') => (⟨cs, e⟩, r')
+  | none => none
+
+def pPlugin (ts : Toks) : Option (Plugin × Toks) :=
+  match pHex ts with
+  | none => none
+  | some (name, r0) =>
+  match pBool r0 with
+  | none => none
+  | some (eas, r1) =>
+  match pNat r1 with
+  | none => none
+  | some (code, r2) =>
+  match pStep r2 with
+  | none => none
+  | some (hs, r3) =>
+  match pStep r3 with
+  | none => none
+  | some (gen, r4) =>
+  match pStep r4 with
+  | none => none
+  | some (bye, r5) => some (⟨name, eas, hs, gen, bye, code⟩, r5)
+
+def stopText : Stop → String
+  | .goodbye => "goodbye" | .eof => "eof" | .readErr => "read-err" | .badRequest => "bad-request"
+  | .fuel => "fuel"
+
+def showAnswer (a : Answer) : String :=
+  let k := match a.r with
+    | .reply v => "R" ++ hexOrDash (enc v)
+    | .genReply (some fs) => "F" ++ ",".intercalate ((showFiles fs).splitOn " ")
+    | .genReply none => "F-"
+    | .exc t => "X" ++ toString t
+  s!"{hexOrDash a.name}:{a.seqid.toNat}:{k}"
+
+def pGenAnswer : Toks → Option (GenAnswer × Toks)
+  | "E" :: r => some (.error, r)
+  | "N" :: r => some (.files none, r)
+  | ts => (pFiles ts).map fun (f, r) => (.files (some f), r)
+
+def natsOf (s : String) : Option (List Nat) :=
+  if s = "-" then some [] else (s.splitOn ",").mapM String.toNat?
+
+def pairsOf (s : String) : Option (List (Nat × Nat)) :=
+  if s = "-" then some []
+  else (s.splitOn ",").mapM fun x =>
+    match x.splitOn ":" with
+    | [a, b] =>
+      match a.toNat?, b.toNat? with
+      | some a, some b => some (a, b)
+      | _, _ => none
+    | _ => none
+
+def showOptList : Option (List Nat) → String
+  | none => "none"
+  | some [] => "[]"
+  | some xs => ",".intercalate (xs.map toString)
+
+def step (line : String) : String :=
+  match (line.trimAscii.toString.splitOn " ").filter (· ≠ "") with
+  | ["F", chunks] =>
+    match pChunks [chunks] with
+    | some (cs, _) =>
+      match readFrames cs with
+      | (ms, clean) =>
+        " ".intercalate (["ok", if clean then "1" else "0", toString ms.length] ++ ms.map hexOrDash)
+    | none => "bad-op"
+  | ["FW", hex] =>
+    match bytesOfHex hex with
+    | some m => "ok " ++ showChunks (writeFrame m)
+    | none => "bad-op"
+  | ["HR", "handshake"] => "ok " ++ hexOrDash (requestFrame .handshake handshakeArgs)
+  | ["HR", "goodbye"] => "ok " ++ hexOrDash (requestFrame .goodbye goodbyeArgs)
+  | ["PC", p] =>
+    match pStr [p] with
+    | some (p, _) => "ok " ++ hexStr (clean p)
+    | none => "bad-op"
+  | ["PD", p] =>
+    match pStr [p] with
+    | some (p, _) => "ok " ++ hexStr (dir p)
+    | none => "bad-op"
+  | ["PB", p] =>
+    match pStr [p] with
+    | some (p, _) => "ok " ++ hexStr (base p)
+    | none => "bad-op"
+  | ["PA", p] =>
+    match pStr [p] with
+    | some (p, _) => if isAbs p then "ok 1" else "ok 0"
+    | none => "bad-op"
+  | ["PJ", a, b] =>
+    match pStr [a], pStr [b] with
+    | some (a, _), some (b, _) => "ok " ++ hexStr (join2 a b)
+    | _, _ => "bad-op"
+  | ["PR", a, b] =>
+    match pStr [a], pStr [b] with
+    | some (a, _), some (b, _) =>
+      match rel a b with
+      | some r => "ok " ++ hexStr r
+      | none => "err"
+    | _, _ => "bad-op"
+  | ["PM", a, b] =>
+    match pStr [a], pStr [b] with
+    | some (a, _), some (b, _) =>
+      match modulePath a b with
+      | some r => "ok " ++ hexStr r
+      | none => "err"
+    | _, _ => "bad-op"
+  | "VA" :: root :: files =>
+    match pStr [root], files.mapM fun f => (pStr [f]).map (·.1) with
+    | some (root, _), some fs => if verifyAncestry root fs then "ok 1" else "ok 0"
+    | _, _ => "bad-op"
+  | "CA" :: files =>
+    match files.mapM fun f => (pStr [f]).map (·.1) with
+    | some fs =>
+      match findCommonAncestor fs with
+      | some r => "ok " ++ hexStr r
+      | none => "err"
+    | none => "bad-op"
+  | "G" :: root :: out :: rest =>
+    match pStr [root], pStr [out], pCounted pMod rest with
+    | some (root, _), some (out, _), some (mods, r1) =>
+      match pCounted pOptFiles r1 with
+      | some (plugs, [ord]) =>
+        match natsOf ord with
+        | some ord =>
+          match generatePlan root out mods plugs ord with
+          | .ok fs => "ok " ++ showFiles fs
+          | .error _ => "err"
+        | none => "bad-op"
+      | _ => "bad-op"
+    | _, _, _ => "bad-op"
+  | "W" :: rest =>
+    match pFiles rest with
+    | some (fs, []) =>
+      match writeLoop ⟨[], []⟩ fs with
+      | (st, ok) => (if ok then "ok " else "err ") ++ showFiles st.files
+    | _ => "bad-op"
+  | "H" :: rest =>
+    match pBool rest with
+    | none => "bad-op"
+    | some (coreOk, r0) =>
+    match pFiles r0 with
+    | none => "bad-op"
+    | some (core, r1) =>
+    match r1 with
+    | ord :: r2 =>
+      match natsOf ord, pCounted pPlugin r2 with
+      | some ord, some (ps, []) => showResult (run ⟨ps, coreOk, core, ord⟩)
+      | _, _ => "bad-op"
+    | [] => "bad-op"
+  | "S" :: name :: sg :: ver :: rest =>
+    match bytesOfHex name, sg.toNat?, bytesOfHex ver, pCounted pGenAnswer rest with
+    | some name, some sg, some ver, some (gens, [chunks]) =>
+      match pChunks [chunks] with
+      | some (cs, _) =>
+        match serve ⟨name, sg != 0, ver⟩ gens cs with
+        | (as, stop) => " ".intercalate (["ok", stopText stop, toString as.length] ++ as.map showAnswer)
+      | none => "bad-op"
+    | _, _, _, _ => "bad-op"
+  | "XM" :: rest =>
+    match pCounted pFiles rest with
+    | some (fs, [ord]) =>
+      match natsOf ord with
+      | some ord =>
+        match mergePlugins [] (pickOrder fs ord) with
+        | some m => "ok " ++ showFiles m
+        | none => "err"
+      | none => "bad-op"
+    | _ => "bad-op"
+  | ["XP", k, wf, inputs, sched] =>
+    match k.toNat?, natsOf wf, (inputs.splitOn ";").mapM natsOf, pairsOf sched with
+    | some k, some wf, some ins, some sched =>
+      let s := Conc.prun (Conc.pinit (fun i => wf.getD i 1 != 0) (fun i => ins.getD i []) k) sched
+      "ok " ++ " ".intercalate ((List.range k).map fun i => showOptList (s.th i).result)
+    | _, _, _, _ => "bad-op"
+  | ["XL", k, held, payloads, sched] =>
+    match k.toNat?, held.toNat?, natsOf payloads, natsOf sched with
+    | some k, some held, some ps, some sched =>
+      let s := Conc.lrun k (Conc.linit (held != 0) (fun i => ps.getD i 0) k) sched
+      "ok " ++ " ".intercalate ((List.range k).map fun i =>
+        match (s.sd i).got with
+        | some x => toString x
+        | none => "none")
+    | _, _, _, _ => "bad-op"
+  | _ => "bad-op"
+
+partial def loop (hin hout : IO.FS.Stream) : IO Unit := do
+  let line ← hin.getLine
+  if line.isEmpty then return ()
+  hout.putStrLn (step line)
+  loop hin hout
+
 def main : IO Unit := do
   let hin ← IO.getStdin
   let hout ← IO.getStdout
-  let rec loop : Nat → IO Unit
-    | 0 => pure ()
-    | n + 1 => do
-      let line ← hin.getLine
-      if line.isEmpty then return ()
-      hout.putStrLn "bad-op"
-      loop n
-  loop 1000000000
+  loop hin hout
   hout.flush
